@@ -9,6 +9,8 @@
 (*   "alive"   nothing is answered and the session stays (datagrams never end a session)         *)
 (*   "closed"  the session ends (TEARDOWN, end of stream)                                        *)
 (*   "any"     answered with an error, ignored, or the session is closed                         *)
+(*   "sent"    (lal as client) the upstream sent the element; whatever the session does with it  *)
+(*             is fine as long as the process lives                                               *)
 (* and in no case allows the process to die or a panic to be recovered by a server loop.  After  *)
 (* a scenario a bystander session opened before it still answers and a new well-formed session   *)
 (* is served.  The concretisation of classes to bytes is harness/proj/surf.go.                   *)
@@ -51,13 +53,38 @@ SdpExpect(first, e) ==
     [] e.k = "media" /\ SdpWellFormed(first) /\ first.shape = "ok" -> "okmedia"
     [] OTHER -> "any"
 
+(* HTTP surfaces (HTTP-API, HTTP-FLV / HTTP-TS optionally upgraded to WebSocket, HLS): a request =   *)
+(* kind x path-or-endpoint class a x body-or-query class b x method-or-header class c.  The handler *)
+(* answers, closes or keeps that connection; the plain well-formed requests must be served.         *)
+HttpExpect(e) ==
+  CASE e.k = "api" /\ e.a \in {"stat_lal_info", "stat_all_group"} /\ e.c \in {"GET", "POST"} -> "ok"
+    [] e.k \in {"flv", "ts"} /\ e.a = "ok" /\ e.b = "none" /\ e.c = "plain" -> "ok"
+    [] e.k \in {"flv", "ts"} /\ e.a = "ok" /\ e.b = "none" /\ e.c = "ws_ok" -> "ws101"
+    [] OTHER -> "any"
+
+(* lal as client: the element sequence is what the upstream sends.  Valid(proto) is the exchange    *)
+(* that must succeed (the session call returns without error) whenever it is a prefix of the script. *)
+R(a) == El("rtmp", a, "-", "-", -1)
+Q(a) == El("rtsp", a, "-", "-", -1)
+F(k, a, n) == El(k, a, "-", "-", n)
+Valid(proto) ==
+  CASE proto = "rtmp_pull" -> <<R("hs_ok"), R("connect_ok"), R("create_ok"), R("play_ok")>>
+    [] proto = "rtmp_push" -> <<R("hs_ok"), R("connect_ok"), R("create_ok"), R("publish_ok")>>
+    [] proto = "rtsp_tcp" -> <<Q("ok"), Q("ok"), Q("ok"), Q("ok"), Q("ok")>>
+    [] proto = "rtsp_udp" -> <<Q("ok_udp"), Q("ok_udp"), Q("ok_udp"), Q("ok_udp"), Q("ok_udp")>>
+    [] proto = "flv_pull" -> <<F("st", "ok", -1), F("fh", "ok", -1)>>
+IsPrefix(p, s) == Len(p) <= Len(s) /\ SubSeq(s, 1, Len(p)) = p
+MustSucceed(surf, cfg, steps) == surf = "client" /\ cfg.sdp = "good" /\ IsPrefix(Valid(cfg.proto), steps)
+
 Expect(surf, st, first, e) ==
   CASE surf = "rtsp" -> RtspExpect(st, e)
+    [] surf = "http" -> HttpExpect(e)
+    [] surf = "client" -> "sent"
     [] surf = "ws" -> WsExpect(st, e)
-    [] surf \in {"rtp", "ps"} -> DgramExpect(e)
+    [] surf \in {"rtp", "ps", "psq", "udp"} -> DgramExpect(e)
     [] surf = "sdp" -> SdpExpect(first, e)
 
-Kinds == {"ok", "alive", "closed", "any", "okmedia"}
+Kinds == {"ok", "alive", "closed", "any", "okmedia", "ws101", "sent"}
 
 (* What the peer may see for an expectation: obs = [codes, alive, panic, note].                  *)
 All200(codes) == \A i \in 1..Len(codes) : codes[i] = 200
@@ -69,11 +96,13 @@ Allowed(x, obs) ==
        [] x = "alive" -> obs.alive /\ obs.codes = <<>>
        [] x = "closed" -> ~obs.alive /\ Len(obs.codes) <= 3 /\ All200(obs.codes)   \* late answers to earlier requests may precede the end
        [] x = "any" -> Len(obs.codes) <= 3
+       [] x = "ws101" -> obs.alive /\ obs.codes = <<101>>
+       [] x = "sent" -> TRUE
 
 (* Outcomes the model explores for an expectation: does the session stay?                        *)
-Stays(x) == CASE x \in {"ok", "alive", "okmedia"} -> {TRUE} [] x = "closed" -> {FALSE} [] OTHER -> {TRUE, FALSE}
+Stays(x) == CASE x \in {"ok", "alive", "okmedia", "ws101", "sent"} -> {TRUE} [] x = "closed" -> {FALSE} [] OTHER -> {TRUE, FALSE}
 
 (* End of a scenario: the process is alive, no server loop had to recover a panic, only the       *)
 (* offending session is gone.                                                                   *)
-EndOk(e) == ~e.died /\ ~e.panic /\ e.second /\ e.bystander /\ e.note = ""
+EndOk(e) == ~e.died /\ ~e.panic /\ e.second /\ e.bystander /\ e.note = "" /\ e.res \in {"ok", "err", "pending", "n/a"}
 =============================================================================
